@@ -688,3 +688,73 @@ pub proof fn lemma_c12_v1_line_end(s: Seq<u8>)
         }
     }
 }
+
+// ======================================================================================
+// C05, last sentence: a receiver that re-parses its growing buffer ends with the one-shot result however the stream is
+// split into reads - every buffer shorter than the header is incomplete, every buffer that contains it has the verdict
+// of the whole input
+// ======================================================================================
+
+// [props: C05 C04]
+/// v1, byte entry point: `i` is accepted with addresses `a`; `k` bytes of it have arrived
+pub proof fn lemma_c05_stream_v1_bytes(i: Seq<u8>, a: V1Addresses, k: int)
+    requires entry_verdict_bytes(i) == V1BV::Line(V1V::Accept(a)), 0 <= k <= i.len()
+    ensures
+        k < v1_window(i).len() ==> v1bv_incomplete(entry_verdict_bytes(i.subrange(0, k))),
+        k >= v1_window(i).len() ==> entry_verdict_bytes(i.subrange(0, k)) == entry_verdict_bytes(i),
+{
+    broadcast use crate::prelude::prelude_str_axioms;
+    let w = v1_window(i);
+    lemma_bytes_accept_window(i);
+    lemma_window_accept(i);
+    lemma_first_index_bounds(i, 13u8);
+    lemma_c04_v1_bytes(i, Seq::<u8>::empty());
+    assert(entry_verdict_bytes(w) == entry_verdict_bytes(i));
+    // the window is a well-formed line (C01, verdict ==> statement) and valid UTF-8
+    assert(line_verdict(w) == V1V::Accept(a));
+    lemma_first_index_prefix(i, w.len() as int, 13u8);
+    match a {
+        V1Addresses::Unknown => { lemma_accepted_unknown_wf(w); },
+        V1Addresses::Tcp4(x) => { lemma_accepted_tcp4_wf(w, x); },
+        V1Addresses::Tcp6(x) => { lemma_accepted_tcp6_wf(w, x); },
+    }
+    assert(wf_line(w, a));
+    assert(vstd::utf8::valid_utf8(w)) by { reveal(valid_utf8); };
+    if k < w.len() {
+        assert(i.subrange(0, k) =~= w.subrange(0, k));
+        lemma_c05_v1_bytes(w, a, k);
+    } else {
+        let t = i.subrange(w.len() as int, k);
+        assert(i.subrange(0, k) =~= w + t);
+        lemma_c04_v1_bytes(w, t);
+    }
+}
+
+// [props: C05 C04]
+/// v2: `i` is accepted; `k` bytes of it have arrived
+pub proof fn lemma_c05_stream_v2(i: Seq<u8>, k: int)
+    requires v2_accepts(i), 0 <= k <= i.len()
+    ensures
+        k < v2_total(i) ==> v2_class(i.subrange(0, k)) == 1,
+        k >= v2_total(i) ==> v2_accepts(i.subrange(0, k)) && v2_total(i.subrange(0, k)) == v2_total(i),
+{
+    let s = i.subrange(0, k);
+    let n = v2_total(i);
+    if k < n {
+        if k < 12 {
+            assert(s =~= v2_sig().subrange(0, k)) by {
+                assert(i.subrange(0, 12) =~= v2_sig());
+                assert forall|j: int| 0 <= j < k implies s[j] == v2_sig().subrange(0, k)[j] by { assert(i.subrange(0, 12)[j] == i[j]); }
+            }
+        } else if k < 16 {
+            assert(s.subrange(0, 12) =~= i.subrange(0, 12));
+        } else {
+            assert(s.subrange(0, 12) =~= i.subrange(0, 12));
+            assert(s[12] == i[12] && s[13] == i[13] && s[14] == i[14] && s[15] == i[15]);
+        }
+        assert(v2_class(s) == 1);
+    } else {
+        assert(s.subrange(0, 12) =~= i.subrange(0, 12));
+        assert(s[12] == i[12] && s[13] == i[13] && s[14] == i[14] && s[15] == i[15]);
+    }
+}
